@@ -71,7 +71,11 @@ def _norms(case, V, st):
         g, c, t = setupCylindricalGrid(layout=lay, npts=list(NPTS), comm=MPI.COMM_WORLD, zMin=7.0, vMin=-6.1, rMin=0.3, dtype=(np.complex128 if cplx else float))
         l = g.getLayout(lay)
         sl = tuple(slice(int(a), int(b)) for a, b in zip(l.starts, l.ends))
-        e = g.eta_grid
+        # the diagnostics take the coordinates separately from the Grid: give them r and v coordinates whose first and last
+        # spacings differ (the Greville points of the setup are symmetric about the middle of the domain)
+        e = [np.array(x, dtype=float) for x in g.eta_grid]
+        e[0][1] += 0.11 * (e[0][2] - e[0][1])
+        e[3][-2] -= 0.13 * (e[3][-1] - e[3][-2])
         objs = (l2(e, l), l1(e, l), nParticles(e, l), KineticEnergy(e, l))
         out = []
         for name, F in fields:
@@ -147,6 +151,7 @@ def _phi(case, V, st):
     fields = _fields(npts, cplx=True)
     r = np.linspace(0.1, 14.5, npts[0]) ** 1.0
     r[2] += 0.3                     # non-uniform radial grid
+    r[1] += 0.2                     # first and last spacing differ
     eta = [r, np.linspace(0, 2 * np.pi, npts[1], endpoint=False), 3.0 + np.linspace(0, 10, npts[2], endpoint=False)]
 
     def fn(rk):
